@@ -82,7 +82,65 @@ func digests(seed int64, n int, emit func(key, digest string)) {
 			}
 			emit(fmt.Sprintf("%s/bytes/%d %s", r.Name, i, vh.Hex(b)), bytesDigest(r.MT.New(), r, b))
 		}
+		// (c) extension-map shapes: present-but-empty repeated extensions against absent / non-empty ones
+		for i, tr := range extShapeTriples(c, r, r.MT) {
+			x, y, z := tr[0], tr[1], tr[2]
+			emit(fmt.Sprintf("%s/extshape/%d", r.Name, i), guard(func() string {
+				eq := func(a, b protoreflect.Message) bool { return proto.Equal(a.Interface(), b.Interface()) }
+				dx, _ := partialDet.Marshal(x.Interface())
+				dy, _ := partialDet.Marshal(y.Interface())
+				return fmt.Sprintf("eq=%v,%v,%v,%v,%v,%v det=%s/%s size=%d/%d", eq(x, y), eq(y, x), eq(x, z), eq(z, x), eq(y, z), eq(z, y), vh.Hex(dx), vh.Hex(dy), proto.Size(x.Interface()), proto.Size(y.Interface()))
+			}))
+		}
 	}
+}
+
+// extShapeTriples: for every repeated extension of the root, (x, y, z) = (entry present but empty, one element,
+// no entry), each next to the same other populated extension (so the maps have equal / different sizes).
+func extShapeTriples(c *C, r *Root, mt protoreflect.MessageType) [][3]protoreflect.Message {
+	var out [][3]protoreflect.Message
+	var reps, others []protoreflect.ExtensionType
+	for _, xt := range r.Exts {
+		xd := xt.TypeDescriptor()
+		if xd.ContainingMessage().FullName() != r.Flat.Root.FullName() {
+			continue
+		}
+		if xd.IsList() && xd.Message() == nil {
+			reps = append(reps, xt)
+		} else if !xd.IsList() && !xd.IsMap() && xd.Message() == nil {
+			others = append(others, xt)
+		}
+	}
+	for i, xt := range reps {
+		if i >= 6 {
+			break
+		}
+		xd := xt.TypeDescriptor()
+		mk := func(shape int) protoreflect.Message {
+			m := mt.New()
+			if len(others) > 0 && i%2 == 0 {
+				od := others[i%len(others)].TypeDescriptor()
+				m.Set(od, scalar(c, od, Opts{}))
+				if !m.Has(od) {
+					m.Set(od, od.Default())
+				}
+			}
+			switch shape {
+			case 0:
+				m.Mutable(xd) // present, empty
+			case 1:
+				m.Mutable(xd).List().Append(scalar(c, xd, Opts{}))
+			}
+			return m
+		}
+		// the "other" extension must hold the same value in all three: build it once and clone
+		base := mk(2)
+		x, y := proto.Clone(base.Interface()).ProtoReflect(), proto.Clone(base.Interface()).ProtoReflect()
+		x.Mutable(xd)
+		y.Mutable(xd).List().Append(scalar(c, xd, Opts{}))
+		out = append(out, [3]protoreflect.Message{x, y, base})
+	}
+	return out
 }
 
 func guard(f func() string) (s string) {
